@@ -413,7 +413,10 @@ def main():
         n_verus = len([o for o in obligations if o['backend'] == 'verus'])
 
     # ---- Kani obligations
-    kres = kani_run.run_for_property(pid, tier, seed) if not os.environ.get('VERIF_SKIP_KANI') else {'status': 'ok', 'harnesses': [], 'counterexamples': {}}
+    # when Verus cannot decide (unsupported construct, new helper without contract ...) the property's slower Kani
+    # harnesses are run as well, whatever the tier: they may still refute the property on the real code
+    ktier = 'thorough' if verus_undecided else tier
+    kres = kani_run.run_for_property(pid, ktier, seed) if not os.environ.get('VERIF_SKIP_KANI') else {'status': 'ok', 'harnesses': [], 'counterexamples': {}}
     if kres.get('status') == 'undecided':
         kres = {'harnesses': [{'name': '(kani build)', 'ok': False, 'undecided': True, 'detail': kres.get('reason')}], 'counterexamples': {}}
     for h in kres.get('harnesses', []):
@@ -453,8 +456,10 @@ def main():
     if pid == 'C01' and failed:
         # C01 is an AGREEMENT property: a deviation from the RFC specification that appears on both the sender-side
         # and the receiver-side function of a pair is symmetric and does not refute the round trip -> undecided
-        sides = set(P.c01_side(o['name']) for o in failed if o['backend'] == 'verus')
-        if 'S' in sides and 'R' in sides:
+        vf = [o for o in failed if o['backend'] == 'verus']
+        sides = set(P.c01_side(o['name']) for o in vf)
+        only_post = all('clause@' in o['name'] for o in vf)
+        if 'S' in sides and 'R' in sides and only_post:
             via_note = 'both the sender-side and the receiver-side function deviate from the RFC specification (possibly symmetrically): C01 is neither proved nor refuted'
             for o in failed:
                 if o['backend'] == 'verus':
